@@ -55,3 +55,13 @@ Proof.
   apply isclose_zero_small in C.
   assert (A : tf / Qmax (f - err) (1 # 100) <= Qabs (tf / Qmax (f - err) (1 # 100))) by apply Qle_Qabs. lra.
 Qed.
+
+(* without any assumption on where the counted margin lies: the interval stays inside the span of the naive bounds and the counted margin *)
+Lemma y_clip_bounds_span ylo yhi pev nm : 0 <= pev -> ylo <= yhi ->
+  let b := y_bounds ylo yhi pev nm in Qmin ylo nm <= fst b /\ fst b <= snd b /\ snd b <= Qmax yhi nm.
+Proof.
+  intros Hp L. unfold y_bounds. destruct (frac_range pev Hp) as [F0 F1]. set (f := frac pev) in *.
+  pose proof (Q.le_min_l ylo nm) as M1. pose proof (Q.le_min_r ylo nm) as M2.
+  pose proof (Q.le_max_l yhi nm) as X1. pose proof (Q.le_max_r yhi nm) as X2.
+  destruct (naive f); cbn [fst snd]; repeat split; nra.
+Qed.
